@@ -86,7 +86,7 @@ theorem reload_inv {s t : St} {now : Int} (hk : s.kind = .indexed) (h : s.reload
 
 /-! ## every operation of the `State` interface keeps well-formedness -/
 
-theorem iFindRules_go_le (fuel : Nat) : ∀ (s0 s : St) (now : Int) (ids : List String)
+theorem iFindRules_go_le_cl (fuel : Nat) : ∀ (s0 s : St) (now : Int) (ids : List String)
     (acc : List (String × Obj)), StLe s0 s → StLe s0 (St.iFindRules.go now fuel s ids acc).1 := by
   induction fuel with
   | zero => intro s0 s now ids acc h; simpa [St.iFindRules.go] using h
@@ -119,7 +119,7 @@ theorem iFindRules_go_le (fuel : Nat) : ∀ (s0 s : St) (now : Int) (ids : List 
             · exact ih s0 s now rest _ h
             · exact h
 
-theorem lFindRules_go_le (fuel : Nat) : ∀ (s0 s : St) (event : Obj) (now : Int) (ids : List String)
+theorem lFindRules_go_le_cl (fuel : Nat) : ∀ (s0 s : St) (event : Obj) (now : Int) (ids : List String)
     (acc : List (String × Obj)), StLe s0 s → StLe s0 (St.lFindRules.go event now fuel s ids acc).1 := by
   induction fuel with
   | zero => intro s0 s ev now ids acc h; simpa [St.lFindRules.go] using h
@@ -188,9 +188,9 @@ theorem St.findRules_le (s : St) (ev : Obj) (now : Int) : StLe s (s.findRules ev
   · simp only [St.iFindRules]
     split
     · exact StLe.refl s
-    · exact iFindRules_go_le _ s s now _ [] (StLe.refl s)
+    · exact iFindRules_go_le_cl _ s s now _ [] (StLe.refl s)
   · simp only [St.lFindRules]
-    exact lFindRules_go_le _ s s ev now _ [] (StLe.refl s)
+    exact lFindRules_go_le_cl _ s s ev now _ [] (StLe.refl s)
 
 theorem WF.stepOp {s : St} (h : WF s) (op : ROp) : WF (s.stepOp op).1 := by
   cases op with
